@@ -52,6 +52,7 @@ def tmain(out):
 PARITY = (
     ("POLL_TIMER", 5, "5"), ("POLL_TIMER", 2, "2"), ("POLL_TIMER", 2.5, "2.5"), ("POLL_TIMER", 30, "30"),
     ("SERVICE_URL", "other:9999", "other:9999"), ("SERVICE_SECURE", "True", "True"), ("SERVICE_SECURE", "false", "false"),
+    ("SERVICE_SECURE", False, "False"), ("SERVICE_SECURE", True, "True"),      # in code the switch may be a bool
     ("SERVICE_AUTH_PROVIDER", "deep.api.auth.BasicAuthProvider", "deep.api.auth.BasicAuthProvider"),
     ("IN_APP_INCLUDE", ["/simapp/sub", "/verif/checks"], "/simapp/sub,/verif/checks"),
     ("IN_APP_INCLUDE", ["/verif"], "/verif"),
